@@ -30,7 +30,7 @@ struct MemFile
 	long long budget_calls = 0, budget_limit = -1 ; bool budget_blown = false ; bool budget_fatal = false ; bool budget_trap = false ;
 	// fault plan (C15): fault fires at callback index fault_at (1-based over all callbacks), kind, persistent
 	long cb_index = 0 ; long fault_at = -1 ; int fault_kind = 0 ; bool fault_persistent = false ; bool fault_fired = false ;
-	long fault_consumed = 0 ;
+	long fault_consumed = 0 ; char cur_cb = '?', fault_cb = '?' ;	// which callback the (first) fault hit: l s r w t
 	bool read_only = false ;
 	size_t max_size = (size_t) 1 << 30 ;
 
@@ -46,7 +46,7 @@ struct MemFile
 			if (budget_fatal) { static const char msg [] = "VERIF: I/O work budget exceeded (library call does not return)\n" ; if (write (2, msg, sizeof (msg) - 1) < 0) { } if (budget_trap) __builtin_trap () ; _exit (97) ; }
 		}
 		if (fault_at > 0 && (cb_index == fault_at || (fault_persistent && fault_fired && cb_index > fault_at)))
-		{	fault_fired = true ; return true ; }
+		{	if (!fault_fired) fault_cb = cur_cb ; fault_fired = true ; return true ; }
 		return false ;
 	}
 } ;
@@ -55,7 +55,7 @@ enum FaultKind { FK_NONE = 0, FK_ZERO = 1, FK_SHORT = 2, FK_SEEKFAIL = 3, FK_LEN
 static const char *fault_kind_name [] = { "none", "zero", "short", "seekfail", "len_big", "len_small", "len_huge" } ;
 
 inline sf_count_t mv_filelen (void *u)
-{	MemFile *m = (MemFile *) u ; m->n_len ++ ;
+{	MemFile *m = (MemFile *) u ; m->cur_cb = 'l' ; m->n_len ++ ;
 	bool f = m->tick () ;
 	sf_count_t len = (sf_count_t) m->data.size () ;
 	if (f)
@@ -66,7 +66,7 @@ inline sf_count_t mv_filelen (void *u)
 	return len ;
 }
 inline sf_count_t mv_seek (sf_count_t offset, int whence, void *u)
-{	MemFile *m = (MemFile *) u ; m->n_seek ++ ;
+{	MemFile *m = (MemFile *) u ; m->cur_cb = 's' ; m->n_seek ++ ;
 	bool f = m->tick () ;
 	if (f && m->fault_kind == FK_SEEKFAIL) { m->fault_consumed ++ ; return -1 ; }
 	sf_count_t np ;
@@ -81,7 +81,7 @@ inline sf_count_t mv_seek (sf_count_t offset, int whence, void *u)
 	return np ;
 }
 inline sf_count_t mv_read (void *ptr, sf_count_t count, void *u)
-{	MemFile *m = (MemFile *) u ; m->n_read ++ ;
+{	MemFile *m = (MemFile *) u ; m->cur_cb = 'r' ; m->n_read ++ ;
 	bool f = m->tick () ;
 	if (count <= 0) return 0 ;
 	sf_count_t avail = (sf_count_t) m->data.size () - m->pos ;
@@ -94,7 +94,7 @@ inline sf_count_t mv_read (void *ptr, sf_count_t count, void *u)
 	return n ;
 }
 inline sf_count_t mv_write (const void *ptr, sf_count_t count, void *u)
-{	MemFile *m = (MemFile *) u ; m->n_write ++ ;
+{	MemFile *m = (MemFile *) u ; m->cur_cb = 'w' ; m->n_write ++ ;
 	bool f = m->tick () ;
 	if (count <= 0) return 0 ;
 	if (m->read_only) return 0 ;
@@ -108,7 +108,7 @@ inline sf_count_t mv_write (const void *ptr, sf_count_t count, void *u)
 	return n ;
 }
 inline sf_count_t mv_tell (void *u)
-{	MemFile *m = (MemFile *) u ; m->n_tell ++ ; m->tick () ;
+{	MemFile *m = (MemFile *) u ; m->cur_cb = 't' ; m->n_tell ++ ; m->tick () ;
 	return m->pos ;
 }
 inline SF_VIRTUAL_IO *memvio ()
